@@ -6,31 +6,25 @@
    Checker: SpecLayout.fits_b.  Only property theorems live here. *)
 From RichModel Require Import Prelude Cells Segments Ratio Frames Layout SpecLayout.
 From RichModel Require Table Wrap.
-From RichProofs Require Import LayoutP LayoutP2 LayoutP3 LayoutP4 LayoutP5 LayoutP6 LayoutP7.
+From RichProofs Require Import LayoutP LayoutP2 LayoutP8 LayoutP3 LayoutP4 LayoutP5 LayoutP6 LayoutP7.
 
-(* FULL STATEMENT (the property's text):
-     forall cf r W lines, wrappable' r = true -> smin r <= W -> W <= cW cf ->
-       render cf r ro0 W = Ok lines -> fits_b W (map line_text lines) = true
-   where wrappable' is `wrappable` without the conjunct `negb (spine_tables c)` of its Align case.
-   PROVED: the statement for `wrappable`, i.e. for EVERY nesting -- tables inside tables inside panels ... to
-   any depth, every layout option of the quantifier, every width from the structural minimum, every content --
-   except an Align whose child reaches a Table / Columns through renderables that do not crop (Align, Constrain,
-   Styled, groups, casts).  What blocks that case: Align renders its child at the child's MEASURED maximum,
-   which for a table with empty columns can be smaller than one cell per column; a table rendered narrower
-   than `borders + #columns` comes out `borders + #columns` cells wide (every column is floored at one cell),
-   and showing that this is all that happens needs a balancedness invariant of the collapse loop for budgets
-   below the column count (every column <= 1 after the collapse), which LayoutP2 does not prove.  No counter-
-   example is known: the implementation-side checker spec.fits_dom is evaluated on such trees too (the model
-   agrees with the implementation on all of them) -- see notes/C01.md.
-   Everywhere else no hypothesis on table nesting is needed (DESIGN expected `table_depth r <= 1`): Padding,
+(* The property, at full strength: EVERY nesting of the built-in renderables -- tables inside tables inside
+   panels ... to any depth --, every layout option of the quantifier (`wrappable`: no text/column switches
+   wrapping off, columns free to wrap, non-negative paddings ...), every width from the structural minimum,
+   every content.  No hypothesis on table nesting is needed (DESIGN expected `table_depth r <= 1`): Padding,
    Panel, Tree and table cells go through Console.render_lines, which crops the child to the width handed
-   down, so a table is extra + sum(widths) cells wide whatever its cells do, and the solved widths sum to at
-   most the budget because Measurement.get normalises every cell measurement (C09_get_normalised). *)
-Theorem C01_render_fits_partial : forall cf r W lines,
+   down, so a table is extra + sum(widths) cells wide whatever its cells do; the solved widths sum to at most
+   max(budget, #columns) (C01_calc_widths_bound) because Measurement.get normalises every cell measurement
+   (C09_get_normalised).  The renderables that do NOT crop (Align, Constrain, Styled, groups, casts) may hand
+   their child less than its structural minimum (Align renders at the child's measured maximum): the
+   induction therefore carries two widths -- rendered at W' <= W, bounded by W >= smin (LayoutP7.Pfit).
+   The one restriction inside `wrappable` that is a finding, not an option: a ProgressBar must be last in its
+   group (C01_group_progress_bar_refuted below). *)
+Theorem C01_render_fits : forall cf r W lines,
   wrappable r = true -> smin r <= W -> W <= cW cf ->
   render cf r ro0 W = Ok lines -> fits_b W (map line_text lines) = true.
 Proof. exact render_fits. Qed.
-Print Assumptions C01_render_fits_partial.
+Print Assumptions C01_render_fits.
 
 (* a panel around a three-column table whose cells are a padded text, a nested table and a tree, at
    exactly its structural minimum: the hypotheses hold and every line has exactly that many cells *)
@@ -52,13 +46,26 @@ Example C01_render_fits_nonvacuous :
      end.
 Proof. vm_compute. repeat split; reflexivity. Qed.
 
-(* the central step, for ANY cells (any renderables, any nesting below): a table given at least one cell per
-   column beyond its borders fits the width it was given; title and caption included *)
+(* the corner that needed the collapse below the column count: an Align over a borderless table with two
+   EMPTY columns.  The table measures (1, 1): its maximum is below one cell per column, Align renders it at
+   width 1, narrower than its three one-cell columns, and it comes out exactly 3 = smin cells wide *)
+Definition ex_align_empty : R :=
+  Align (Tbl (mkTblSpec (Table.mkOpts false false false false false 0 (0, 0, 0, 0) false true false None None)
+                        None [] [] [default_col; default_col; default_col] [false])
+             [[Txt (lit "a") None None None; Txt [] None None None; Txt [] None None None]]) 1 true None.
+Example C01_align_over_table_nonvacuous :
+  wrappable ex_align_empty = true /\ smin ex_align_empty = 3
+  /\ measure (mkCfg 3 true) ex_align_empty 3 = Ok (1, 1)
+  /\ match render (mkCfg 3 true) ex_align_empty ro0 3 with Ok lines => map line_len lines = [3] | _ => False end.
+Proof. vm_compute. repeat split; reflexivity. Qed.
+
+(* the central step, for ANY cells (any renderables, any nesting below) and ANY width: a table is at most
+   max(the width it was given, its borders + one cell per column) cells wide; title and caption included *)
 Theorem C01_table_fits : forall cf t rows ro W,
   tbl_ok t = true -> ro_overflow ro <> Some Wrap.OV_IGNORE ->
-  Table.extra_width (tb_o t) (length (tb_cols t)) + zlen (tb_cols t) <= W ->
-  sfits W (table_stream t (table_cols cf t rows) ro W).
-Proof. intros cf t rows ro W H1 H2 H3. exact (proj1 (table_stream_fits cf t rows ro W H1 H2 H3)). Qed.
+  sfits (Z.max W (Table.extra_width (tb_o t) (length (tb_cols t)) + zlen (tb_cols t)))
+        (table_stream t (table_cols cf t rows) ro W).
+Proof. intros cf t rows ro W H1 H2. exact (proj1 (table_stream_fits cf t rows ro W H1 H2)). Qed.
 Print Assumptions C01_table_fits.
 
 (* ... which rests on two facts about rich/table.py that C07 left open.  (a) The collapse loop keeps every
@@ -84,6 +91,40 @@ Theorem C01_calc_widths_fits : forall o cols M ws,
   length ws = length cols /\ Forall (fun w => 1 <= w) ws /\ sumZ ws <= M /\ (Table.t_expand o = true -> sumZ ws = M).
 Proof. exact calc_widths_fits. Qed.
 Print Assumptions C01_calc_widths_fits.
+
+(* (c) below one cell per column: the collapse leaves every column at 0 or 1 cell (the water-filling is
+   balanced), the re-measure floors every column at one cell, so the table is exactly #columns wide *)
+Theorem C01_collapse_below_column_count : forall widths wrapable M out,
+  length wrapable = length widths -> Forall (fun b => b = true) wrapable ->
+  Forall (fun w => 1 <= w) widths -> widths <> [] ->
+  M < zlen widths -> collapse_widths widths wrapable M = Ok out ->
+  Forall (fun w => 0 <= w <= 1) out /\ length out = length widths.
+Proof. exact collapse_small. Qed.
+Print Assumptions C01_collapse_below_column_count.
+
+Example C01_collapse_below_nonvacuous : collapse_widths [5; 2; 9] [true; true; true] 2 = Ok [1; 0; 1].
+Proof. vm_compute. reflexivity. Qed.
+
+Theorem C01_calc_widths_bound : forall o cols M ws,
+  Table.o_minw o = None -> cols <> [] -> Forall col_free cols -> pad_ok o ->
+  Table.calc_widths false false o cols M = Ok ws ->
+  length ws = length cols /\ Forall (fun w => 1 <= w) ws /\ sumZ ws <= Z.max M (zlen cols).
+Proof. exact calc_widths_bound. Qed.
+Print Assumptions C01_calc_widths_bound.
+
+(* KNOWN FINDING (genuine, low severity): ProgressBar.__rich_console__ ends without a new line -- Bar, Rule,
+   Text and every frame end with one -- so inside a RenderGroup the next renderable continues the bar's line:
+   RenderGroup(ProgressBar(total=100, completed=100), Text("x")) at W = 10 has a line of 11 cells (and
+   Console.print silently crops the "x" away).  Both children are inside the option domain; `wrappable`
+   excludes exactly this: a ProgressBar followed by a sibling in a group.  Replayed on the implementation
+   (corpus/layout/group_progress_bar_then_text.json: model = implementation). *)
+Theorem C01_group_progress_bar_refuted :
+  smin pb_group = 1 /\ forallb wrappable [PBar 100 100 None false 0; Txt (lit "x") None None None] = true
+  /\ wrappable pb_group = false
+  /\ exists lines, render (cf0 10) pb_group ro0 10 = Ok lines /\ map line_len lines = [11]
+                   /\ fits_b 10 (map line_text lines) = false.
+Proof. exact group_progress_bar_refuted. Qed.
+Print Assumptions C01_group_progress_bar_refuted.
 
 (* the frames, at ANY width (also below their structural minimum) and for ANY child: *)
 Theorem C01_padding_fits : forall c t r b l ex W, 0 <= l -> 0 <= r -> 0 <= W ->
